@@ -218,6 +218,9 @@ func genFsCase(r *Rng, out *outFiles) {
 				if _, e2 := m.GetTemplate(p); e2 != nil {
 					c19 = "matching file not registered under its relative path: " + p
 				}
+				if _, isFile := m.Files()[p]; !isFile {
+					c19 = "matching file " + p + " is missing from Files()"
+				}
 				for _, fn := range frags[full] {
 					if _, e2 := m.GetTemplate(fn); e2 != nil {
 						c19 = fmt.Sprintf("fragment %q defined in the registered file %s is not registered", fn, p)
